@@ -11,7 +11,7 @@ CONSTANTS
   DelaysBSC = {1,2}
   DelaysETH = {0,1,2}
   Nows = {3,4,5}
-  VariantsU = {"genuine","relabelled","otherStore","truncated","reordered","valueSwapped","empty","garbage"}
+  VariantsU = {"genuine","relabelled","otherStore","truncated","reordered","valueSwapped","empty","garbage","shadowKey"}
   Modes = {"full"}
   LOG = TRUE
   SimDepth = 1
